@@ -109,6 +109,14 @@ func (r *Run) lookup(st *State, fr *Frame, x *ssa.Lookup) Val {
 	v := e.mapVal(st, ml, m, k)
 	zero := e.zeroVal(st, ml.mt.Elem())
 	res := e.iteVal(has, v, zero)
+	if rt, ok := res.(T); ok {
+		if _, isMap := ml.mt.Elem().Underlying().(*types.Map); isMap {
+			// an inner map shares the protection of the field the outer map was loaded from
+			if a, ok := e.loaded[m.S]; ok {
+				e.loaded[rt.S] = a
+			}
+		}
+	}
 	if x.CommaOk {
 		return &TupleV{V: []Val{res, has}}
 	}
